@@ -9,6 +9,7 @@ import (
 	"fmt"
 	"math"
 	"reflect"
+	"strconv"
 	"strings"
 	"time"
 
@@ -219,6 +220,12 @@ func doCast(result interface{}, tInfo string) (interface{}, ast.DType) {
 		if v, ok := result.(int64); ok {
 			// no detour through float64: it loses integers beyond 2^53
 			return v, ast.Int
+		}
+		if s, ok := result.(string); ok {
+			// the same for a string that spells an integer
+			if v, err := strconv.ParseInt(s, 10, 64); err == nil {
+				return v, ast.Int
+			}
 		}
 		return conv.ToInt64(conv.ToFloat64(result)), ast.Int
 
